@@ -744,9 +744,14 @@ def _rx_finditer(I, pattern, s):
         for j in range(mode['count']):
             if mode.get('exact') is not True and not I.branch(z3.Bool(I.p.fresh_name(f'fi_{key}_{j}'))):
                 break
-            m = E.fresh_match(I, s, f'{key}_{j}')
+            m = E.fresh_match(I, s, f'{key}_{j}', full=bool(mode.get('full')))
             I.p.assume(I.term(m.start) >= prev_end)
             prev_end = I.term(m.end)
+            if mode.get('assume'):
+                from .symex import Frame
+                fr = I.cur_frame
+                sub = Frame(fr.func, I.env.spec_module, {'M': m}, cls=fr.cls, parent=I.spec_frame(fr))
+                I.p.assume(I.formula(I.parse_src(mode['assume']), sub))
             out.append(m)
         I.p.ghost.setdefault(('env_matches', key), []).extend(out)
         I.p.ghost[ck] = (I.term(s) if not isinstance(s, str) else None, out)
